@@ -9,7 +9,18 @@ use crate::*;
 static mut POW_TABLE: [f64; 3] = [0.0; 3];
 static mut POW_P: f64 = 0.0;
 
+static mut FIXED_TABLE: bool = false;
+
 fn init_pow_table(p: f64) {
+    if unsafe { FIXED_TABLE } {
+        // one concrete member of the contract class for p >= 1 (x^p on the grid is some increasing
+        // sequence below the identity); keeps every sum concrete up to the choice of profiles
+        unsafe {
+            POW_TABLE = [0.0625, 0.25, 0.5625];
+            POW_P = p;
+        }
+        return;
+    }
     let t: [f64; 3] = [kani::any(), kani::any(), kani::any()];
     kani::assume(t[0] > 0.0 && t[0] < t[1] && t[1] < t[2] && t[2] < 1.0);
     if p >= 1.0 {
@@ -84,8 +95,11 @@ fn distance_core(mode: u8, three: bool) {
     let p = any_exponent();
     if mode == 0 {
         kani::assume(p >= 1.0);
-    } else {
+    } else if mode != 3 {
         kani::assume(p < 1.0);
+    } else if unsafe { FIXED_TABLE } {
+        // the table is x^2: the exponent must be 2 so that the native replay (real powf) agrees
+        kani::assume(p == 2.0);
     }
     let (l1, r1): ([f64; 3], [f64; 3]) = if three {
         (any_quarters3(), any_quarters3())
@@ -107,6 +121,16 @@ fn distance_core(mode: u8, three: bool) {
     kani::cover!(same1 && !same2, "player one equal, player two different");
     kani::cover!(l1[0] == 1.0 && r1[1] == 1.0 && l2[0] == 1.0 && r2[1] == 1.0, "disjoint pure supports");
     kani::cover!(l1[0] == 0.5 && r1[0] == 0.25, "mixed profiles a quarter apart");
+    if mode == 3 {
+        // symmetry and zero-iff-equal only (cheap enough for the quick tier with 3 actions)
+        for i in 0..2 {
+            assert!(d[i].to_bits() == e[i].to_bits(), "C19 symmetric: d(a,b) != d(b,a)");
+        }
+        assert!((d[0] == 0.0) == same1, "C19 zero-iff-equal: player one");
+        core::mem::forget(s);
+        core::mem::forget(t);
+        return;
+    }
     for i in 0..2 {
         if mode == 2 {
             assert!(d[i] <= 1.0, "C19 range-p-below-one: distance above 1 for an exponent below one");
@@ -167,6 +191,25 @@ fn c19_distance_3x2_p_lt_1() {
 #[kani::stub(f64::powf, powf_model)]
 fn c19_distance_3x2_p_lt_1_upper_bound() {
     distance_core(2, true);
+}
+
+#[kani::proof]
+#[kani::unwind(5)]
+#[kani::stub(f64::powf, powf_model)]
+fn c19_distance_3x2_symmetry() {
+    distance_core(3, true);
+}
+
+/// same with exponent 2 and powf fixed to x^2 on the grid: cheap enough for
+/// the quick tier, still all pairs of quarter-grid profiles over three actions
+#[kani::proof]
+#[kani::unwind(5)]
+#[kani::stub(f64::powf, powf_model)]
+fn c19_distance_3x2_symmetry_square() {
+    unsafe {
+        FIXED_TABLE = true;
+    }
+    distance_core(3, true);
 }
 
 /// A player without any multi-action infoset: the distance is still a number (0).
